@@ -131,12 +131,46 @@ func loadProg(repo string, patterns []string, tags string) (*Prog, error) {
 	prog, _ := ssautil.Packages(pkgs, ssa.InstantiateGenerics)
 	prog.Build()
 	p.SSA = prog
+	seenFn := map[*ssa.Function]bool{}
 	for fn := range ssautil.AllFunctions(prog) {
 		if fn.Blocks == nil {
 			continue
 		}
 		if isIstioFunc(fn) {
 			p.AllFuncs = append(p.AllFuncs, fn)
+			seenFn[fn] = true
+		}
+	}
+	// ssautil.AllFunctions misses methods of generic types that are only reached through instantiations made inside other
+	// generic bodies (e.g. krt's joinIndexer[T].Lookup). Add the generic (uninstantiated) body of every declared function
+	// and method of the loaded packages, with the function literals nested in them.
+	var addFn func(fn *ssa.Function)
+	addFn = func(fn *ssa.Function) {
+		if fn == nil || fn.Blocks == nil || seenFn[fn] || !isIstioFunc(fn) {
+			return
+		}
+		seenFn[fn] = true
+		p.AllFuncs = append(p.AllFuncs, fn)
+		for _, a := range fn.AnonFuncs {
+			addFn(a)
+		}
+	}
+	for _, pk := range pkgs {
+		if pk.Types == nil {
+			continue
+		}
+		sc := pk.Types.Scope()
+		for _, name := range sc.Names() {
+			switch o := sc.Lookup(name).(type) {
+			case *types.Func:
+				addFn(prog.FuncValue(o))
+			case *types.TypeName:
+				if nt, ok := o.Type().(*types.Named); ok {
+					for i := 0; i < nt.NumMethods(); i++ {
+						addFn(prog.FuncValue(nt.Method(i)))
+					}
+				}
+			}
 		}
 	}
 	sort.Slice(p.AllFuncs, func(i, j int) bool { return fnKey(p.AllFuncs[i]) < fnKey(p.AllFuncs[j]) })
